@@ -374,6 +374,21 @@ func genC03(c *Cfg, emit func([]string)) {
 							}
 						}
 					}
+					// the original is seen (and accepted) by the process first, then altered copies of it
+					// carrying the very same signatures: nothing remembered from the first may help the second
+					{
+						x := mk(route, kt, nsign, ab[0], ab[1])
+						add(clone(x.r, "none"))
+						for _, i := range []int{3, 4, 5} {
+							t := clone(x.r, "after-original")
+							if i == 5 {
+								t.args[i] = "17000000" + t.args[i][8:12] + "9"
+							} else {
+								t.args[i] = t.args[i] + "q"
+							}
+							add(t)
+						}
+					}
 					// drop / duplicate an argument
 					for _, i := range []int{0, 3, 4, 5, 6} {
 						x := mk(route, kt, nsign, ab[0], ab[1])
